@@ -27,6 +27,7 @@ ASSUME = [
     "left open by the README and therefore unconstrained: C after SWAP, C/Z after HALT/OFF, bits 2-7 of a pushed/popped F byte, SSR bit 2 and the IMR cell after RESET",
     "X, Y, U, S, PC are 20-bit (property statement) although the README register table says 24",
     "tracing disabled (no _perf_tracer on the memory object)",
+    "binja_test_mocks.eval_llil is loaded from its real source with one mechanical rewrite: `K1 if c else K2` with two literal constants -> ite(c, K1, K2) (flag bits `1 if result == 0 else 0`); literal arms have no effects, so the value is the one CPython computes; nothing is dropped",
     "instruction placed at 0x1000 (C05 varies the address); bytes after the instruction are unconstrained symbols",
 ]
 
@@ -128,9 +129,26 @@ def hist_units(tier):
 
 def _bounded_note(units):
     ns = sorted({u.get("block_n") for u in units if u.get("block_n")})
-    return [dict(part="counted (block) instructions MVL/MVLD/EXL/ADCL/SBCL/DADL/DSBL/DSLL/DSRL",
-                 bound=f"iteration count I in {ns} (concrete), all other state symbolic",
-                 note="bounded: proved for these counts only, not for all I")]
+    ind = sorted({u["opcode"] for u in units if u.get("induction")})
+    out = [dict(part="counted (block) instructions MVL/MVLD/EXL/ADCL/SBCL/DADL/DSBL/DSLL/DSRL executed whole",
+                bound=f"iteration count I in {ns} (concrete), all other state symbolic",
+                note="bounded companion of the induction below: whole-instruction result (final flags, I, pointer registers) for these counts only")]
+    if ind:
+        out.append(dict(part="prefixed WAIT (really loops I times) and I = 0 for every counted instruction",
+                        bound=f"WAIT: I in {ns}; I = 0 is not covered by the induction (README does not say whether a pre-decrement/post-increment set-up happens when the loop is skipped)",
+                        note="bounded / not decided"))
+    return out
+
+
+def _induction_note(units):
+    ind = sorted({u["opcode"] for u in units if u.get("induction")})
+    if not ind:
+        return None
+    return ("counted instructions " + ",".join(f"{o:02X}" for o in ind) + " are proved for EVERY I >= 1 by a loop rule applied to the IL the real "
+            "Emulator interprets (contracts/blockind.py): init obligations at the first arrival at the loop head, then all TEMP registers, I, F and the "
+            "auto-modified pointer register are havoced under the linear invariant I = n - j, cursor = first + dir*j, and ONE execution of the real loop "
+            "body must perform the documented element step j, produce the documented carry, accumulate Z, re-establish the invariant or exit with "
+            "j + 1 = n; exit obligations give I = 0, final pointer register, Z from the accumulator, other registers untouched")
 
 
 def run(prop, tier):
@@ -146,6 +164,8 @@ def run(prop, tier):
         # C03 looks at locations (memory image, pointer registers, read footprint); C04 at everything.
         v.absorb(reps, known)
         v.bounded = _bounded_note(units)
+        if _induction_note(units):
+            v.extra["induction"] = _induction_note(units)
         for r in reps:
             if r.get("texts") and len(v.samples) < 8 and r.get("obligations"):
                 v.samples.append(dict(unit=r["unit"], rendered=r["texts"][:3], obligations=r["obligations"],
